@@ -130,7 +130,7 @@ def Ctx.forwardOnMe (c : Ctx) (t : Topic) (p : PresMsg) (what : String) : Ctx :=
     else c.emit sid (presFrame t.name { p with what := what })) c
 
 /-- the category of a loaded topic is "group" (`topic.cat == types.TopicCatGrp`): not `me`, not `fnd`, not p2p -/
-def Topic.isGrpCat (t : Topic) : Bool := !(t.isMe || t.isFnd || isP2PKey t.name)
+def Topic.isGrpCat (t : Topic) : Bool := !(t.isMe || t.isFnd || isP2PKey t.name || t.name == "sys")
 
 /-- a group topic hears that the account of one of its subscribers (not the owner) is gone (handlePresence, fix 2f1) -/
 def goneMember (t : Topic) (p : PresMsg) : Bool :=
@@ -497,5 +497,39 @@ def Ctx.opFgAllM (c : Ctx) (sid : Sid) : Ctx :=
 def Ctx.opDropAllM (c : Ctx) (sid : Sid) : Ctx :=
   c.opDropWith sid (fun c s tn => if isP2PKey tn then c.dropP2P s tn else if isMeKey c.w tn then c.dropMe s tn
     else if c.w.isChanTopic tn then c.dropTopicC s tn else c.dropTopic s tn)
+
+/-! ### the tags of the account: {set tags} / {get what=tags} on `me` (topic.go replySetTags, replyGetTags, TopicCatMe) -/
+
+/-- the account's tags are replaced by the normalised list; a tag in an immutable namespace can neither come nor go; the account's
+other sessions on `me` are told; the new tags are what the search finds the account by -/
+def Ctx.opSetTagsMe (c : Ctx) (a : Actor) (src : List String) : Ctx :=
+  let tn := a.uid
+  if !c.w.attached a.sid tn then c.emit a.sid (ctrl 403 tn) else
+  match c.w.live? tn with
+  | none => c
+  | some t =>
+    match normTags src with
+    | none => c.emit a.sid (ctrl 304 tn)
+    | some tags =>
+      if !immutableSame t.tags tags then c.emit a.sid (ctrl 403 tn) else
+      let added := (tags.filter (fun x => !t.tags.contains x)).length
+      let removed := (t.tags.filter (fun x => !tags.contains x)).length
+      if added = 0 ∧ removed = 0 then c.emit a.sid (ctrl 304 tn) else
+      let (c, ok) := c.call "UserUpdate" (fun w =>
+        { w with users := w.users.map (fun (x : User) => if x.uid = a.uid then { x with tags := tags } else x) })
+      if !ok then c.emit a.sid (ctrl 500 tn) else
+      let t := { t with tags := tags }
+      let c := c.presOnline t { what := "tags", src := "", singleUser := a.uid, skipSid := a.sid }
+      let params := (if added > 0 then s!" added={added}" else "") ++ (if removed > 0 then s!" removed={removed}" else "")
+      (c.emit a.sid (ctrl 200 tn params)).putLive t
+
+def Ctx.opGetTagsMe (c : Ctx) (a : Actor) : Ctx :=
+  let tn := a.uid
+  if !c.w.attached a.sid tn then c.emit a.sid (ctrl 403 tn) else
+  match c.w.live? tn with
+  | none => c
+  | some t =>
+    if t.tags.isEmpty then c.emit a.sid (ctrl 204 tn " what=tags")
+    else c.emit a.sid s!"meta {tn} tags[{",".intercalate t.tags}]"
 
 end Tinode.World
